@@ -18,6 +18,7 @@ import Poulpy.Lemmas.ValBridge
 import Poulpy.Lemmas.AccAdd
 import Poulpy.Lemmas.EpTotal
 import Poulpy.Lemmas.CswapTotal
+import Poulpy.Lemmas.HeadRoom
 import Poulpy.Lemmas.MulNorm
 
 /-!
@@ -1217,5 +1218,69 @@ example (m2 : Ks.R 1) (σ : ℕ → Ks.R 1) : ∃ xa xb, cswap false 1 4 ([[[1],
     (by decide) (by decide) rfl (by decide) (by decide) (by decide) (Ks.entry_length staleG.toPMat 1 rfl (by decide)) (by decide)
     (by intro i _ r _; exact (add_sub_cancel _ _).symm)
   exact ⟨xa, xb, h1, h2, h3⟩
+
+/-! ## Head-room derived from digit bounds; admissible shapes -/
+
+/-- **`ep_headroom`** — the accumulator head-room of the external product DERIVED from digit bounds: input digits `|a| ≤ Da`, GGSW digits
+`|g| ≤ Dm` ⇒ every coefficient of the executed `glwe_external_product_internal` is bounded by `dsize·((rank+1)·dnum)·N·Da·Dm`
+(`Core.prodBound`; each of the `dsize` passes adds one vector-matrix product of `(rank+1)·dnum` negacyclic products). -/
+theorem ep_headroom (N : Nat) (a : List Col) (g : EpGGSW) (res0 tmp0 : List Col) (Da Dm : Int) (hDa : 0 ≤ Da) (hDm : 0 ≤ Dm)
+    (hd : 1 ≤ g.dsize) (hn : g.n = N)
+    (ha : shapeOk g.n (g.rank + 1) (a.getD 0 []).length a = true)
+    (h0 : shapeOk g.n (g.rank + 1) g.size res0 = true) (ht : shapeOk g.n (g.rank + 1) g.size tmp0 = true)
+    (hab : ∀ c ∈ a, ∀ l ∈ c, ∀ x ∈ l, |x| ≤ Da)
+    (hgb : ∀ row ∈ g.cells, ∀ c ∈ row, ∀ l ∈ c, ∀ x ∈ l, |x| ≤ Dm) :
+    ∀ c ∈ epInternal a g res0 tmp0, ∀ l ∈ c, ∀ x ∈ l, |x| ≤ prodBound g.dsize (g.rank + 1) g.dnum N Da Dm :=
+  epInternal_bound N a g res0 tmp0 Da Dm hDa hDm hd hn ha h0 ht hab hgb
+
+example : ∀ c ∈ epInternal [[[1], [2], [3]], [[0], [1], [0]]] staleG (zeroCols 1 2 4) (zeroCols 1 2 4), ∀ l ∈ c, ∀ x ∈ l,
+    |x| ≤ prodBound 3 2 1 1 3 1 :=
+  ep_headroom 1 _ staleG _ _ 3 1 (by decide) (by decide) (by decide) rfl (by decide) (by decide) (by decide) (by decide) (by decide)
+
+/-- the crate's parameter sets are admissible (balanced digits `2^(b−1)`, added operand `< 2^b`): bench core (`N = 4096`, `b = 18`, rank 1,
+`dnum = 3`), circuit bootstrapping / BDD (`N = 1024`, `b = 13`, rank 2, `dnum ≤ 4`) on the i64 accumulator; CKKS (`N = 4096`, `b = 52`, rank 1,
+`dnum ≤ 16`) on the i128 accumulator — and not on i64 -/
+example : prodAdmissible 64 1 2 3 4096 (2 ^ 17) (2 ^ 17) (2 ^ 18) ∧ prodAdmissible 64 1 3 4 1024 (2 ^ 12) (2 ^ 12) (2 ^ 13) ∧
+    prodAdmissible 128 1 2 16 4096 (2 ^ 51) (2 ^ 51) (2 ^ 52) ∧ ¬ prodAdmissible 64 1 2 16 4096 (2 ^ 51) (2 ^ 51) (2 ^ 52) := by decide
+
+/-- **`ep_decrypts_of_digits`** — `ep_decrypts` with the head-room derived: digit bounds and ONE explicit admissible-shape inequality
+(`Core.prodAdmissible`) replace the accumulator hypothesis. -/
+theorem ep_decrypts_of_digits {N : Nat} (big128 : Bool) (rb rs ab : Nat) (a aConv : List Col) (g : EpGGSW) (sk : List Poly) (Da Dm : Int)
+    (hg : (g.n == N && g.wf && shapeOk N (g.rank + 1) (a.getD 0 []).length a) = true)
+    (hc : epConvert N a ab g = some aConv)
+    (hrb1 : 1 ≤ rb) (hrb : rb ≤ 62) (hgb1 : 1 ≤ g.base2k) (hgb : g.base2k ≤ 62)
+    (hDa : 0 ≤ Da) (hDm : 0 ≤ Dm)
+    (hadm : prodAdmissible (bitsOf big128) g.dsize (g.rank + 1) g.dnum N Da Dm 0)
+    (hab : ∀ c ∈ aConv, ∀ l ∈ c, ∀ x ∈ l, |x| ≤ Da)
+    (hgd : ∀ row ∈ g.cells, ∀ c ∈ row, ∀ l ∈ c, ∀ x ∈ l, |x| ≤ Dm)
+    (m2 : Ks.R N) (σ : ℕ → Ks.R N) (E : ℕ → ℕ → Ks.R N)
+    (hd : 1 ≤ g.dsize) (hN : 0 < N) (hn : g.n = N)
+    (haC : shapeOk g.n (g.rank + 1) (aConv.getD 0 []).length aConv = true)
+    (hM : ∀ j q, (g.toPMat.entry j q).length = N) (hS : g.dnum * g.dsize ≤ g.size)
+    (hkey : ∀ i, i < g.rank + 1 → ∀ r, r < g.dnum →
+      Gadget.val ((2 : Ks.R N) ^ g.base2k) g.size (Ks.keyPhase N sk g.toPMat i r)
+        = m2 * σ i * ((2 : Ks.R N) ^ g.base2k) ^ (g.size - (r + 1) * g.dsize) + E i r) :
+    ∃ res, glweExternalProduct big128 N rb rs a ab g = .ok res ∧ C02L.GWF N (Ks.mkCt rb N res) ∧
+      (∀ c ∈ res, ∀ l ∈ c, ∀ x ∈ l, |x| ≤ 2 ^ rb - 1) ∧
+      ∃ En Q : Poly, En.length = N ∧ Q.length = N ∧
+        normInf En ≤ (1 + C02L.snorm (min g.rank sk.length) sk) * C02.normTol (rb * rs) (g.base2k * g.size) ∧
+        (2 : Ks.R N) ^ (g.base2k * g.size) * Ks.ι N (C02L.valP rb N (Core.Ops.phase sk (Ks.mkCt rb N res)))
+          = (2 : Ks.R N) ^ (rb * rs) * epValue N sk aConv g ((2 : Ks.R N) ^ g.base2k) m2 σ E
+            + Ks.ι N En + (2 : Ks.R N) ^ (rb * rs + g.base2k * g.size) * Ks.ι N Q := by
+  have hz : shapeOk g.n (g.rank + 1) g.size (zeroCols N (g.rank + 1) g.size) = true := by rw [hn]; exact zeroCols_shape _ _ _
+  have hacc := ep_headroom N aConv g _ _ Da Dm hDa hDm hd hn haC hz hz hab hgd
+  unfold prodAdmissible at hadm
+  exact ep_decrypts big128 rb rs ab a aConv g sk _ hg hc hrb1 hrb hgb1 hgb (prodBound_nonneg _ _ _ _ _ _ hDa hDm) (by linarith) hacc
+    m2 σ E hd hN hn haC hM hS hkey
+
+example (m2 : Ks.R 1) (σ : ℕ → Ks.R 1) :
+    ∃ res, glweExternalProduct true 1 4 4 [[[1], [2], [3]], [[0], [1], [0]]] 4 staleG = .ok res ∧ C02L.GWF 1 (Ks.mkCt 4 1 res) := by
+  obtain ⟨res, h1, h2, _⟩ := ep_decrypts_of_digits (N := 1) true 4 4 4 [[[1], [2], [3]], [[0], [1], [0]]] [[[1], [2], [3]], [[0], [1], [0]]] staleG [[1]]
+    3 1 (by decide) (by decide) (by decide) (by decide) (by decide) (by decide) (by decide) (by decide) (by decide) (by decide) (by decide)
+    m2 σ (fun i r => Gadget.val ((2 : Ks.R 1) ^ staleG.base2k) staleG.size (Ks.keyPhase 1 [[1]] staleG.toPMat i r)
+                    - m2 * σ i * ((2 : Ks.R 1) ^ staleG.base2k) ^ (staleG.size - (r + 1) * staleG.dsize))
+    (by decide) (by decide) rfl (by decide) (Ks.entry_length staleG.toPMat 1 rfl (by decide)) (by decide)
+    (by intro i _ r _; exact (add_sub_cancel _ _).symm)
+  exact ⟨res, h1, h2⟩
 
 end C04
